@@ -440,10 +440,6 @@ func hoist(pieces []*Node) ([]*Node, []string) {
 		if f.Op == "num" {
 			return &Form{Op: "ref", S: next(f.S)}
 		}
-		if f.Op == "bin" && (f.S == "%" || f.S == "<<" || f.S == ">>") {
-			// the simplifier probes references with 0: keep these operands constant
-			return cloneForm(f)
-		}
 		c.L, c.R = hf(f.L), hf(f.R)
 		return &c
 	}
